@@ -5,6 +5,7 @@ import (
 	"math"
 	"math/big"
 	"sort"
+	"strings"
 )
 
 // roundTo rounds a float64 to the precision of the float kind.
@@ -296,6 +297,47 @@ func checkC09(c *Checker) {
 				c.expect(bound < 1, "C09-G6", inst, p, fmt.Sprintf("|A|max*4u = %.3g < 1", bound), fmt.Sprintf("rounding bound %.3g is not below one step", bound))
 			}
 		}
+	}
+	// G7: the round trip is stated for an inverse conversion that truncates toward zero: a forward scale that differs
+	// from the scale the inverse multiplies with (by one part in 2^(d-1), rule G5) moves the product k*K'/K above k by
+	// less than one step, which truncation absorbs and rounding to nearest does not. An inverse that rounds is
+	// therefore accepted only where every piece of the forward conversion divides by exactly the matching scale.
+	c.rule("C09-G7", "the inverse conversion truncates; where it rounds to nearest, every piece of the forward conversion divides by exactly the scale the inverse multiplies with (G5 without exception)", 2)
+	for _, pair := range [][2]string{{"FloatAsSigned", "SignedAsFloat"}, {"FloatAsUnsigned", "UnsignedAsFloat"}} {
+		fn := c.anchor("C09-G7", pair[0])
+		if fn == nil {
+			continue
+		}
+		sm := c.Summary(fn)
+		rounds := ""
+		for _, o := range sm.Outcomes {
+			for _, e := range o.St.effects {
+				if e.Kind != EStoreElem {
+					continue
+				}
+				if v := valTerm(e.Val); v != nil {
+					v.walk(func(x *Term) bool {
+						if x.Op == OpCall && (x.Name == "math.Round" || x.Name == "math.RoundToEven" || x.Name == "math.Floor" || x.Name == "math.Ceil") {
+							rounds = x.Name
+						}
+						return rounds == ""
+					})
+				}
+			}
+		}
+		if rounds == "" {
+			c.proved("C09-G7", pair[0], c.pos(fn.Pos()), "the stored code is the truncating conversion of the scaled sample")
+			continue
+		}
+		mismatch := ""
+		for _, ob := range c.Obligs {
+			if ob.Rule == "C09-G5" && strings.HasPrefix(ob.Instance, pair[1]+"[") && ob.Verdict != Proved {
+				mismatch = ob.Instance
+				break
+			}
+		}
+		c.expect(mismatch == "", "C09-G7", pair[0], c.pos(fn.Pos()), "rounds to nearest ("+rounds+"), and every piece of "+pair[1]+" divides by the matching scale",
+			fmt.Sprintf("%s quantises with %s, but %s does not divide by the scale the inverse multiplies with (%s): the excess k/(2^(d-1)-1) is cut off by truncation, rounding turns it into the next code for a quarter of the codes, so the round trip no longer returns the sample", pair[0], rounds, pair[1], mismatch))
 	}
 }
 
